@@ -303,6 +303,11 @@ Definition harvest_cursor (z k : Z) (org_h : Z -> bool) (orgdoy : Z -> Z) (saat2
   let k1 := k + 1 in
   if (saat2 k1 <=? z) && automan && org_h (k1 - 1) then (k1 + 1, zt, true) else (k1, zt, false).
 
+(* pools at a crop skip (nitro.go:464-470): only the slow organic part and the direct N of entry k's fertiliser are
+   applied; the fast organic part is not *)
+Definition skip_payload {T} {N : Num T} (naos0 dsumm nfos0 : T) (nsas nlas ndir : T) : T * T * T :=
+  (add naos0 nlas, add dsumm ndir, nfos0).
+
 (* the days after the harvest while the next entry stays current: the organic fertiliser of entry k is applied
    when zeit == ZTDG[k]; [fuel] days starting at z *)
 Fixpoint orgh_days (ztdg : Z) (fuel : nat) (z : Z) : list Z :=
